@@ -223,7 +223,7 @@ func runCacheOps(sc *Scenario) *cacheRun {
 			}
 		}
 	}
-	s := &Sched{schedule: sc.Schedule, MaxSteps: 40*total + 100}
+	s := newSched(sc, 40*total+100)
 	s.Between = func(step int) {
 		ks, idx := cr.VerifKeys()
 		h := uint64(1469598103934665603)
@@ -231,6 +231,9 @@ func runCacheOps(sc *Scenario) *cacheRun {
 			h = (h ^ hashStr(k)) * 1099511628211
 		}
 		out.States = append(out.States, h)
+		if sc.Pre && !cr.VerifLockFree() {
+			return // a task is parked inside the critical section: not a state any caller can observe
+		}
 		if len(ks) > sc.CacheCap {
 			out.Between = append(out.Between, fmt.Sprintf("cache holds %d entries with capacity %d (step %d)", len(ks), sc.CacheCap, step))
 		}
@@ -429,7 +432,7 @@ func genC14Router(rng *Rng, sc *Scenario) {
 	})
 	sc.Options.StrictSlash = false
 	sc.Options.EncodedPath = false // (the key is then built from the escaped path: normalisation is C11's business)
-	sc.Options.Intercept = ""     // (every request is then resolved, and cached, as another path)
+	sc.Options.Intercept = ""      // (every request is then resolved, and cached, as another path)
 	n := rng.Range(4, 24)
 	var cl Client
 	var prev []Req
@@ -613,6 +616,10 @@ func init() {
 		Rule: "a concurrent history is non-trivial when operations of different clients overlap in invocation/return order"})
 	register(&Profile{Prop: "C14", Name: "lru-concurrent-race", Race: true, Quick: 1200, Thorough: 30000, Gen: genC14Ops(true), Check: checkC14Ops,
 		Rule: "as lru-concurrent, executed under the race detector"})
+	register(&Profile{Prop: "C14", Name: "lru-concurrent-pre", Pre: true, Quick: 30000, Thorough: 120000, Gen: preempt(genC14Ops(true)), Check: checkC14Ops,
+		Rule: "as lru-concurrent; a task can be preempted before every statement of the cache (instrumented copy of rux)"})
+	register(&Profile{Prop: "C14", Name: "router-concurrent-pre", Pre: true, Quick: 2000, Thorough: 40000, Gen: preempt(genC14RouterConc), Check: checkC14Router,
+		Rule: "as router-concurrent; a task can be preempted before every statement of rux (instrumented copy)"})
 	register(&Profile{Prop: "C14", Name: "router", Quick: 24000, Thorough: 400000, Gen: genC14Router, Check: checkC14Router,
 		Rule: "a history is non-trivial when at least one request resolved to a dynamic route on the caching router"})
 }
